@@ -6,6 +6,7 @@ mod cli;
 mod clone;
 mod http;
 mod pb;
+mod tamper;
 mod memfile;
 mod util;
 
@@ -26,6 +27,7 @@ fn main() {
             "planner" | "clone" => clone::replay(&line),
             "protodec" | "tryinit" | "compress" => archive::replay(&line),
             "http" => http::replay(&line),
+            "corrupt" | "hostile" => tamper::replay(&line),
             k => Err(format!("unknown replay kind {}", k)),
         };
         match r {
@@ -63,6 +65,9 @@ fn main() {
         "tryinit" => archive::suite_tryinit(&out, seed, thorough, &mut st),
         "compress" => archive::suite_compress(&out, seed, thorough, &mut st),
         "http" => http::suite_http(&out, seed, thorough, &mut st),
+        "conform" => tamper::suite_conform(&out, seed, thorough, &mut st),
+        "corrupt" => tamper::suite_corrupt(&out, seed, thorough, &mut st),
+        "hostile" => tamper::suite_hostile(&out, seed, thorough, &mut st),
         "clirt" => cli::suite_clirt(&out, seed, thorough, &mut st),
         "cliclone" => cli::suite_cliclone(&out, seed, thorough, &mut st),
         "clirefuse" => cli::suite_clirefuse(&out, seed, thorough, &mut st),
